@@ -538,6 +538,26 @@ pub fn main(args: &[String]) {
             *observed_prim_mismatch.entry(format!("{backend}:{diff}")).or_insert(0) += 1;
             rep.oracle_fail(&case, what, json!({"backend": backend, "item": item, "position": pos, "c": ca.show(), "binding": ba.show(), "mismatch": diff, "rust_type": rust_type, "class": format!("{}-vs-{}", classify(ca), classify(ba)), "source": src}));
         };
+        // model tie (Dart): the `@ffi.Native<…>` line of every method equals the model's text
+        if backend == "dart" {
+            let line = crate::e2e::module_sexp(&m, "c07dart", "");
+            match crate::model::run_model("C07", &[line.clone()]) {
+                Ok(out) if out[0] != "bad-case" => {
+                    let frags: Vec<(String, String)> = out[0].split(" ;; ").filter_map(|f| f.split_once(" => ")).map(|(k, t)| (k.to_string(), tool::norm_ws(t))).collect();
+                    rep.count_n("dart-native-frags", frags.len());
+                    let mut outs = BTreeMap::new();
+                    outs.insert("dart".to_string(), b_out.clone());
+                    // the native declarations are not in method order in the file: check each on its own
+                    for (k, t) in &frags {
+                        for p in tool::check_frags(&outs, &[(k.clone(), t.clone())]) {
+                            rep.disagree(&case, "dart-native-signature", &p, t);
+                        }
+                    }
+                }
+                Ok(out) => rep.disagree(&case, "dart-model", &line, &out[0]),
+                Err(e) => rep.disagree(&case, "model-driver", "", &e),
+            }
+        }
         // functions
         for (ty_name, abi) in abi_names(&m) {
             rep.oracle_runs += 1;
